@@ -125,7 +125,10 @@ func (c *Ctx) funcRef(f *ssa.Function) Term {
 func (c *Ctx) addrIdentity(a *Addr) Term {
 	switch a.Kind {
 	case aCell:
-		n := "adr_" + smtIdent(fmt.Sprintf("%p", a.Key))
+		n := "adr_" + smtIdent(cellName(a.Key))
+		if al, ok := a.Key.(*ssa.Alloc); ok {
+			n = fmt.Sprintf("adr_%s_%s_%d", smtIdent(al.Parent().Name()), smtIdent(al.Comment), int(al.Pos()))
+		}
 		c.declare(fmt.Sprintf("(declare-const %s Int)", n))
 		c.declare(fmt.Sprintf("(assert (not (= %s 0)))", n))
 		return Term{S: n, Sort: SInt}
